@@ -11,7 +11,9 @@
 package fetcher
 
 import (
+	"bytes"
 	"context"
+	"sort"
 
 	"github.com/sourcenetwork/corekv"
 
@@ -19,6 +21,7 @@ import (
 	"github.com/sourcenetwork/defradb/errors"
 	"github.com/sourcenetwork/defradb/internal/connor"
 	"github.com/sourcenetwork/defradb/internal/db/id"
+	"github.com/sourcenetwork/defradb/internal/encoding"
 	"github.com/sourcenetwork/defradb/internal/keys"
 	"github.com/sourcenetwork/defradb/internal/planner/filter"
 	"github.com/sourcenetwork/defradb/internal/planner/mapper"
@@ -239,6 +242,7 @@ type inIndexIterator struct {
 	fieldConditions []fieldFilterCond
 	matchers        []valueMatcher
 	isUnique        bool
+	reverse         bool
 }
 
 var _ indexIterator = (*inIndexIterator)(nil)
@@ -287,7 +291,8 @@ func (iter *inIndexIterator) createIteratorForNextValue() error {
 			Descending: iter.fetcher.indexDesc.Fields[0].Descending,
 		}}
 
-		iter.indexIterator = iter.fetcher.newPrefixBaseMatchIterator(indexKey, iter.matchers, iter.fetcher.execInfo)
+		iter.indexIterator = iter.fetcher.newPrefixBaseMatchIterator(indexKey, iter.matchers, iter.fetcher.execInfo).
+			Reverse(iter.reverse)
 	}
 
 	return nil
@@ -457,12 +462,30 @@ func (f *indexFetcher) newInIndexIterator(
 
 	isUnique := isUniqueFetchByFullKey(&f.indexDesc, fieldConditions)
 
+	// if the index takes over the requested ordering (the planner then has no order node), the listed
+	// values must be visited in the order of their index keys, not in the order they are listed in
+	ordered, reverse := CanBeOrderedByIndex(f.ordering, f.indexDesc, f.mapping)
+	if ordered {
+		descending := f.indexDesc.Fields[0].Descending
+		sort.SliceStable(inValues, func(i, j int) bool {
+			cmp := bytes.Compare(
+				encoding.EncodeFieldValue(nil, inValues[i], descending),
+				encoding.EncodeFieldValue(nil, inValues[j], descending),
+			)
+			if reverse {
+				return cmp > 0
+			}
+			return cmp < 0
+		})
+	}
+
 	inIter := &inIndexIterator{
 		inValues:        inValues,
 		fetcher:         f,
 		fieldConditions: fieldConditions,
 		matchers:        matchers,
 		isUnique:        isUnique,
+		reverse:         ordered && reverse,
 	}
 
 	err = inIter.createIteratorForNextValue()
